@@ -42,3 +42,12 @@ package common
 
 //@ -- typing fact: the signature maps of the transaction are objects that exist when the call is made (none of them is a map the callee allocates)
 //@ spec SigMapsExist(tx *SignedTransaction) bool = forall k int :: 0 <= k && k < len(tx.SignaturesMap) ==> allocated(tx.SignaturesMap[k])
+
+//@ -- KeyOff(s, tx, k): the number of keys of the outputs spent by inputs 0..k-1 = the offset of input k's window in the concatenated key list
+//@ rec KeyOff(s any, tx *Transaction, n int) mathint = n <= 0 ? 0 : KeyOff(s, tx, n - 1) + StoreKeyCount(s, tx.Inputs[n - 1].Hash, tx.Inputs[n - 1].Index)
+//@ recframe KeyOff
+
+//@ -- signer position i of the aggregate signature falls into the key window of input k
+//@ spec InAggWindow(s any, tx *SignedTransaction, k int, i int) bool = 0 <= i && i < len(tx.AggregatedSignature.Signers) &&
+//@     KeyOff(s, &tx.Transaction, k) <= tx.AggregatedSignature.Signers[i] &&
+//@     tx.AggregatedSignature.Signers[i] < KeyOff(s, &tx.Transaction, k) + InKeyCount(s, tx.Inputs[k])
